@@ -942,7 +942,9 @@ static int app_channel_init(void)
   }
   if (app_cfg.failover_set) {
     o.server_failover_opts.retry_chance = (unsigned short)app_cfg.failover_chance;
-    o.server_failover_opts.retry_delay  = (size_t)app_cfg.failover_delay_ms;
+    o.server_failover_opts.retry_delay  = app_cfg.failover_delay_ms == -1 ? (size_t)-1 /* never, for all practical purposes */
+                                        : app_cfg.failover_delay_ms == -2 ? (size_t)1 << (sizeof(size_t) * 8 - 1)
+                                                                            : (size_t)app_cfg.failover_delay_ms;
     mask |= ARES_OPT_SERVER_FAILOVER;
   }
   rc = ares_init_options(&app_channel, &o, mask);
